@@ -1137,7 +1137,128 @@ func conforms(v interface{}, t string) bool {
 	return true
 }
 
+// applyFn calls a module function on values (the callbacks of map / filter / reduce ...). The
+// builtins pass the values straight to the body: what happens when arity, parameter types or
+// the declared return type do not fit is not defined anywhere, so the reference has no opinion then.
+func (e *Evaluator) applyFn(f *Func, vals []interface{}) (interface{}, error) {
+	unspec := func(why string) (interface{}, error) {
+		e.Exceeded = true
+		return nil, errf("reference: callback %s", why)
+	}
+	if len(vals) != len(f.Params) {
+		return unspec("arity")
+	}
+	if e.calls >= 25 || e.depth > 400 {
+		return unspec("nesting")
+	}
+	e.calls++
+	defer func() { e.calls-- }()
+	fenv := newScope(nil)
+	for i, p := range f.Params {
+		if !p.Required || !conforms(vals[i], p.Type) {
+			return unspec("argument type")
+		}
+		fenv.vars[p.Name] = &binding{val: vals[i]}
+	}
+	res, err := e.block(f.Body, fenv, true)
+	if err != nil {
+		if r, ok := err.(*retSig); ok {
+			res = r.val
+		} else {
+			return nil, err
+		}
+	}
+	if f.Ret != "" && !conforms(res, f.Ret) {
+		return unspec("return type")
+	}
+	return res, nil
+}
+
+// higherOrder: map filter reduce find some every with a module function as the callback.
+func (e *Evaluator) higherOrder(n *Node, env *scope) (interface{}, error) {
+	want := 2
+	if n.S == "reduce" {
+		want = 3
+	}
+	if len(n.C) != want {
+		return nil, errf("%s expects %d arguments", n.S, want)
+	}
+	av, err := e.expr(n.C[0], env)
+	if err != nil {
+		return nil, err
+	}
+	arr, ok := av.([]interface{})
+	if !ok {
+		return nil, errf("%s: first argument must be an array", n.S)
+	}
+	if n.C[1].K != "var" || e.funcs[n.C[1].S] == nil || env.lookup(n.C[1].S) != nil {
+		e.Exceeded = true
+		return nil, errf("reference: callback is not a module function")
+	}
+	f := e.funcs[n.C[1].S]
+	var acc interface{}
+	if n.S == "reduce" {
+		if acc, err = e.expr(n.C[2], env); err != nil {
+			return nil, err
+		}
+	}
+	out := []interface{}{}
+	for _, el := range arr {
+		if err := e.tick(); err != nil {
+			return nil, err
+		}
+		if n.S == "reduce" {
+			if acc, err = e.applyFn(f, []interface{}{acc, el}); err != nil {
+				return nil, err
+			}
+			continue
+		}
+		r, err := e.applyFn(f, []interface{}{el})
+		if err != nil {
+			return nil, err
+		}
+		t, _ := r.(bool)
+		switch n.S {
+		case "map":
+			out = append(out, r)
+		case "filter":
+			if t {
+				out = append(out, el)
+			}
+		case "find":
+			if t {
+				return el, nil
+			}
+		case "some":
+			if t {
+				return true, nil
+			}
+		case "every":
+			if !t {
+				return false, nil
+			}
+		}
+	}
+	switch n.S {
+	case "reduce":
+		return acc, nil
+	case "find":
+		return nil, nil
+	case "some":
+		return false, nil
+	case "every":
+		return true, nil
+	}
+	return out, nil
+}
+
 func (e *Evaluator) call(n *Node, env *scope) (interface{}, error) {
+	switch n.S {
+	case "map", "filter", "reduce", "find", "some", "every":
+		if _, user := e.funcs[n.S]; !user {
+			return e.higherOrder(n, env)
+		}
+	}
 	if bf, ok := builtins[n.S]; ok {
 		args := make([]interface{}, len(n.C))
 		if bf.arity >= 0 && len(n.C) != bf.arity {
